@@ -149,6 +149,12 @@ theorem normGeneric_type (b : Ty) (raw ps : List Ty) (c : String) (hn : isNameTy
 
 /-! ### the identity on emitted-shape types -/
 
+theorem emitted_of_or (t : Ty) (hne : t ≠ .nothing) (h : t = .nothing ∨ emitted t = true) :
+    emitted t = true := by
+  rcases h with h | h
+  · exact absurd h hne
+  · exact h
+
 /-- what the mutual induction proves for one type `t` -/
 def FixBoth (f : Ty → Ty) (t : Ty) : Prop := f t = strip t ∧ f (nl t) = strip (nl t)
 
@@ -212,18 +218,18 @@ theorem identV : ∀ t : Ty, emitted t = true → isUnionTy t = false → FixBot
     · have hnl : nls ps = ps := by rcases hc with e | e | e <;> subst e <;> rfl
       have hst : strips ps = [.named c] := by rcases hc with e | e | e <;> subst e <;> rfl
       simp only [FixBoth, normVal, nl, strip, hnl, hst, normGeneric_type b ps _ c hn hb hc]
-      exact ⟨trivial, trivial⟩
+      constructor <;> first | rfl | trivial
     · have ih := identPs ps hp
       simp only [FixBoth, normVal, nl, strip]
       rw [ih.1, ih.2, normGeneric_full b ps _ k hn hb ha (by rw [strips_length]; exact hlen),
         normGeneric_full b (nls ps) _ k hn hb ha (by rw [strips_length, nls_length]; exact hlen)]
-      exact ⟨trivial, trivial⟩
+      constructor <;> first | rfl | trivial
   | .tuple b ps, h, _ => by
     simp only [emitted, Bool.and_eq_true, beq_iff_eq] at h
     have ih := identPs ps h.2
     have hb : strip b = .named "builtins.tuple" := by rw [strip_name b h.1.1, h.1.2]
     simp only [FixBoth, normVal, nl, strip, ih.1, ih.2, hb]
-    exact ⟨trivial, trivial⟩
+    constructor <;> first | rfl | trivial
   | .typeParam _ _, h, _ => by simp [emitted] at h
   | .callable _ _, h, _ => by simp [emitted] at h
   | .literal _, h, _ => by simp [emitted] at h
@@ -239,19 +245,19 @@ theorem identP : ∀ t : Ty, (t = .nothing ∨ emitted t = true) → FixBoth nor
   | .nothing, _ => by simp [FixBoth, normIn, nl, strip]
   | .any, _ => by simp [FixBoth, normIn, nl, strip]
   | .named n, h => by
-    have := identV (.named n) (by rcases h with h | h <;> [simp at h; exact h]) rfl
+    have := identV (.named n) (emitted_of_or _ (by simp) h) rfl
     simpa [FixBoth, normIn, normVal, nl] using this
   | .cls n, h => by
-    have := identV (.cls n) (by rcases h with h | h <;> [simp at h; exact h]) rfl
+    have := identV (.cls n) (emitted_of_or _ (by simp) h) rfl
     simpa [FixBoth, normIn, normVal, nl] using this
   | .late n, h => by
-    have := identV (.late n) (by rcases h with h | h <;> [simp at h; exact h]) rfl
+    have := identV (.late n) (emitted_of_or _ (by simp) h) rfl
     simpa [FixBoth, normIn, normVal, nl] using this
   | .generic b ps, h => by
-    have := identV (.generic b ps) (by rcases h with h | h <;> [simp at h; exact h]) rfl
+    have := identV (.generic b ps) (emitted_of_or _ (by simp) h) rfl
     simpa [FixBoth, normIn, normVal, nl] using this
   | .tuple b ps, h => by
-    have := identV (.tuple b ps) (by rcases h with h | h <;> [simp at h; exact h]) rfl
+    have := identV (.tuple b ps) (emitted_of_or _ (by simp) h) rfl
     simpa [FixBoth, normIn, normVal, nl] using this
   | .typeParam _ _, h => by rcases h with h | h <;> simp [emitted] at h
   | .callable _ _, h => by rcases h with h | h <;> simp [emitted] at h
@@ -265,7 +271,7 @@ theorem identPs : ∀ ts : List Ty, emittedP ts = true →
     have h1 := identP t h.1
     have h2 := identPs ts h.2
     simp only [normIns, strips, nls, h1.1, h1.2, h2.1, h2.2]
-    exact ⟨trivial, trivial⟩
+    constructor <;> first | rfl | trivial
 theorem identM : ∀ ts : List Ty, emittedM ts = true →
     ∀ m ∈ ts, isUnionTy m = false ∧ m ≠ .any ∧ m ≠ .nothing ∧ FixBoth normVal m
   | [], _ => by intro m hm; simp at hm
@@ -273,9 +279,9 @@ theorem identM : ∀ ts : List Ty, emittedM ts = true →
     simp only [emittedM, Bool.and_eq_true, Bool.not_eq_true', decide_eq_true_eq] at h
     intro m hm
     rcases List.mem_cons.1 hm with e | hm'
-    · subst e
-      refine ⟨h.1.1.1, h.1.1.2, ?_, identV m h.1.2 h.1.1.1⟩
-      intro e; subst e; simp [emitted] at h
+    · rw [e]
+      refine ⟨h.1.1.1, h.1.1.2, ?_, identV t h.1.2 h.1.1.1⟩
+      intro e2; rw [e2] at h; simp [emitted] at h
     · exact identM ts h.2 m hm'
 end
 
